@@ -175,8 +175,13 @@ def mirror_ok(sa, sb):
 def _twin_worker(spec):
     a = dict(spec, maximize=False)
     b = dict(spec, maximize=True)
+    from ..common import RunTimeout, run_limit
+
     try:
-        sa, sb = R.plain_run(a), R.plain_run(b)
+        with run_limit():
+            sa, sb = R.plain_run(a), R.plain_run(b)
+    except RunTimeout as e:
+        return {"status": "crash", "detail": f"run did not terminate: {e}"}
     except Exception as e:  # noqa: BLE001
         from ..common import is_env_crash
 
